@@ -105,5 +105,8 @@ func X2(a A)
 func X3(ctx context.Context, i int, a A) error
 func XE() error
 func XE2(ctx context.Context)
+func M1(k A, v B) error
+func M2(ctx context.Context, k A, v B)
+func ME() error
 
 // END-USERFNS
